@@ -155,6 +155,10 @@ def clamp_descs(mode):
         anchors.append(R.ymd_to_rd(mode, y, 1, R.month_len(mode, y, 1)))
         anchors.append(R.days_before_year(mode, y) + R.year_len(mode, y) - 1)
         anchors.append(R.week_start(mode, y + 1) - 3)
+    # the last week of several consecutive week-years (their number of weeks
+    # differs from year to year: 52/53, or 51/52 in the 360-day calendar)
+    for y in (2000, 2001, 2002, 2003):
+        anchors.append(R.week_start(mode, y + 1) - 5)
     for i, rd in enumerate(anchors):
         for rep in gen.REPS:
             a = gen.date_kwargs(mode, rep, rd)
